@@ -206,6 +206,62 @@ def parser_variants(fmt, path, gz_path, crlf_path, text, tier):
     return out
 
 
+def handle_variants(fmt, hpath, k, text, encpath, written):
+    """(variant name, key group, thunk): parsers fed an open text handle positioned after k consumed lines,
+    handles with another encoding / line end convention, and generators of lines"""
+    from cogent3.parse import fasta as pf
+    from cogent3.parse import paml as pp
+    from cogent3.parse import phylip as ph
+    from cogent3.util.io import open_
+
+    def at_k(parse, use_next=False):
+        def run():
+            with open_(hpath, "rt") as fh:
+                for _ in range(k):
+                    next(fh) if use_next else fh.readline()
+                return _pairs(parse(fh))
+        return run
+
+    lines = text.splitlines()
+    gen = lambda: (l for l in lines)
+    out = []
+    if fmt == "fasta":
+        def enc_handle(encoding, newline_text):
+            def run():
+                encpath.write_bytes(newline_text.encode(encoding))
+                written.append(encpath)
+                with open(encpath, "rt", encoding=encoding) as fh:
+                    return _pairs(pf.iter_fasta_records(fh))
+            return run
+
+        out += [
+            (f"iter_fasta_records(text handle after {k} readline())", "bytes", at_k(pf.iter_fasta_records)),
+            (f"iter_fasta_records(text handle after {k} next())", "bytes", at_k(pf.iter_fasta_records, use_next=True)),
+            (f"MinimalFastaParser(text handle after {k} lines, strict)", "lines", at_k(lambda fh: pf.MinimalFastaParser(fh, strict=True))),
+            (f"MinimalFastaParser(text handle after {k} lines, nonstrict)", "lines", at_k(lambda fh: pf.MinimalFastaParser(fh, strict=False))),
+            ("iter_fasta_records(utf-16 text handle)", "bytes", enc_handle("utf-16", text)),
+            ("iter_fasta_records(text handle, CR-only line ends)", "bytes", enc_handle("utf8", text.replace("\n", "\r"))),
+            ("MinimalFastaParser(generator of lines, strict)", "lines", lambda: _pairs(pf.MinimalFastaParser(gen(), strict=True))),
+            ("MinimalFastaParser(generator of lines, nonstrict)", "lines", lambda: _pairs(pf.MinimalFastaParser(gen(), strict=False))),
+        ]
+    elif fmt == "gde":
+        out += [
+            (f"MinimalGdeParser(text handle after {k} lines)", "lines", at_k(pf.MinimalGdeParser)),
+            ("MinimalGdeParser(generator of lines)", "lines", lambda: _pairs(pf.MinimalGdeParser(gen()))),
+        ]
+    elif fmt == "phylip":
+        out += [
+            (f"MinimalPhylipParser(text handle after {k} lines)", "lines", at_k(ph.MinimalPhylipParser)),
+            ("MinimalPhylipParser(generator of lines)", "lines", lambda: _pairs(ph.MinimalPhylipParser(gen()))),
+        ]
+    elif fmt == "paml":
+        out += [
+            (f"PamlParser(text handle after {k} lines)", "lines", at_k(pp.PamlParser)),
+            ("PamlParser(generator of lines)", "lines", lambda: _pairs(pp.PamlParser(gen()))),
+        ]
+    return out
+
+
 def observed_fasta_layout(text, names, seqs):
     """line lengths of each record's sequence lines, None if the text is not header/sequence shaped"""
     lines = text.split("\n")
@@ -363,6 +419,25 @@ def run_case(job):
                 agrees = isinstance(got, Exception) if pred is None else (not isinstance(got, Exception) and got == pred)
                 if not agrees:
                     out.append(("drift", f"{vname} differs from its transcription {mv}", {**base, "observed": _show(got), "model": m}))
+    # SOURCE REPRESENTATION: an open text handle whose first k (preamble) lines were already consumed, a handle in another
+    # encoding / with CR-only line ends, and a generator of lines -- each must parse like the list of the remaining lines
+    if text is not None and fmt != "json" and plain_path is not None:
+        pre = [_s(l) for l in t.get("preamble", [])]
+        ks = sorted(t.get("skips", []))
+        if pre and ks:
+            k = ks[idx % len(ks)]
+            cmp = COMPRESSIONS[idx % len(COMPRESSIONS)]
+            hpath = _scratch / f"{stem}_pre.{SUFFIX[fmt]}{cmp}"
+            written.append(hpath)
+            with open_(hpath, "wt") as fh:
+                fh.write("".join(l + "\n" for l in pre[:k]) + text)
+            for vname, group, thunk in handle_variants(fmt, hpath, k, text, _scratch / f"{stem}_enc.{SUFFIX[fmt]}", written):
+                got = _call(thunk)
+                stats["parses"] += 1
+                stats["handle_parses"] = stats.get("handle_parses", 0) + 1
+                d = diff_kind(got, exp, allowed_bytes if group == "bytes" else allowed)
+                if d:
+                    out.append(("fail", f"{fmt}:parse:{group}:{cls}:{d}", vname, {**base, "parser": vname, "consumed_lines": k, "file": hpath.name, "observed": _show(got)}))
     # the other writer routes (family O: names in non-alphabetical order): every route must give the oracle back
     for route in sorted(set(t.get("routes", [])) - {"write"}):
         obj = _call(lambda: cogent3.make_aligned_seqs(data, moltype=mtname))
